@@ -42,7 +42,8 @@ def case_strategy():
             d = draw(st.sampled_from(DIRS[:4]))
             links[(d + "/" if d else "") + f"l{j}{os.path.splitext(tgt)[1]}"] = os.path.relpath(tgt, d or ".")
         excludes = draw(st.sampled_from([[], [], ["excl/"], ["*.h"], ["/src/a/"], ["excl/", "*.cpp"]]))
-        return {"files": files, "links": links, "excludes": excludes}
+        # files that come out of an archive or a checkout often share one modification time
+        return {"files": files, "links": links, "excludes": excludes, "same_mtime": draw(st.booleans())}
 
     return case()
 
@@ -55,6 +56,9 @@ def check_case(case, res: Result, cli=False):
         root = os.path.join(top, "cb")
         os.makedirs(root)
         core.write_tree(root, {k: POOL[v] for k, v in case["files"].items()}, case["links"])
+        if case.get("same_mtime"):
+            for k in case["files"]:
+                os.utime(os.path.join(root, k), ns=(1_600_000_000_000_000_000, 1_600_000_000_000_000_000))
         filecmp.clear_cache()
         cb = CodeBase(root, exclude_patterns=list(case["excludes"]))
         members = [p for p in cb if not os.path.islink(p)]
